@@ -74,6 +74,31 @@ Theorem C10_ff_step_bound_oracle : forall add_step times sensors fuel,
 Proof. exact ff_step_bound_oracle. Qed.
 Print Assumptions C10_ff_step_bound_oracle.
 
+(* ---- the same bound read off the result tables: every row and the row after it
+        (for the last row: the end of the data) are strictly increasing and never
+        further apart than max(time_step, sampling gap after the earlier row);
+        `adjacent P l e` (Proofs/SchedProofs.v) = P a b for every element a of l
+        and its successor b, the successor of the last element being e ---- *)
+Theorem C10_ff_table_step_bound : forall time_step times sensors fuel,
+  StronglySorted Qlt times -> (2 <= length times)%nat ->
+  (length times - 1 <= fuel)%nat ->
+  adjacent (fun a b => exists i, (i + 1 < length times)%nat /\ a = nth i times 0 /\ a < b /\
+                                 b - a <= Qmax time_step (nth (i + 1) times 0 - nth i times 0))
+           (record_times (ff_run_exact fuel time_step times sensors))
+           (nth (length times - 1) times 0).
+Proof. exact ff_table_step_bound. Qed.
+Print Assumptions C10_ff_table_step_bound.
+
+Theorem C10_ff_table_step_bound_oracle : forall add_step times sensors fuel,
+  StronglySorted Qlt times -> (2 <= length times)%nat ->
+  (length times - 1 <= fuel)%nat ->
+  adjacent (fun a b => exists i, (i + 1 < length times)%nat /\ a = nth i times 0 /\ a < b /\
+                                 (b = nth (i + 1) times 0 \/ b <= add_step a))
+           (record_times (ff_run fuel add_step times sensors))
+           (nth (length times - 1) times 0).
+Proof. exact ff_table_step_bound_oracle. Qed.
+Print Assumptions C10_ff_table_step_bound_oracle.
+
 (* ---- every step moves forward (time_delta > 0: no division by zero), stays in
         the table, and the steps chain from row 0 to the last row ---- *)
 Theorem C10_ff_positive_propagate : forall time_step times sensors fuel,
@@ -179,6 +204,21 @@ Example C10_ex_trace_large_step :
   innov_epochs 0 tr = [101#100; 12#10; 143#100] /\
   innov_epochs 1 tr = [1; 102#100; 12#10; 147#100].
 Proof. vm_compute. repeat split. Qed.
+
+(* the bound is tight: with step 1/8 the row 1/4 is followed by the row 2 (the local
+   sampling gap 7/4 > time_step), and `adjacent` unfolds to one statement per row *)
+Example C10_ex_table_step_bound_tight :
+  let times := [0; 1#8; 3#16; 1#4; 2; 33#16] in
+  record_times (ff_run_exact 5 (1#8) times []) = [0; 1#8; 1#4; 2] /\
+  adjacent (fun a b => a < b /\ b - a <= Qmax (1#8) (7#4))
+           (record_times (ff_run_exact 5 (1#8) times [])) (33#16) /\
+  ~ adjacent (fun a b => b - a <= 1#8)
+           (record_times (ff_run_exact 5 (1#8) times [])) (33#16).
+Proof.
+  split; [vm_compute; reflexivity|]. split.
+  - vm_compute. repeat split; discriminate.
+  - vm_compute. intros (_ & _ & H & _). apply H. reflexivity.
+Qed.
 
 (* irregular sampling with a gap, no measurements, step equal to a sampling gap *)
 Example C10_ex_gap_no_measurements :
